@@ -157,7 +157,9 @@ pub fn check(case: &Case, res: &RunResult, status: &str) -> Vec<(String, String)
   let mut foreign_event: BTreeMap<usize, bool> = BTreeMap::new(); // tid -> another thread acted during its op
 
   let gone = |hs: &BTreeMap<String, HState>, side: char| {
-    hs.values().filter(|h| h.side == side).all(|h| h.closed || h.dropped || h.consumed)
+    // a closed handle that was converted afterwards is in an unknown state (known defect family:
+    // conversions reset the flag): draw no "everybody is gone" conclusions from it
+    hs.values().filter(|h| h.side == side).all(|h| !h.converted_after_close && (h.closed || h.dropped || h.consumed))
   };
 
   for (i, e) in evs.iter().enumerate() {
@@ -498,6 +500,14 @@ pub fn check(case: &Case, res: &RunResult, status: &str) -> Vec<(String, String)
     }
   }
 
+  for o in ops.iter().filter(|o| o.fut.is_some() && o.closed_at_call && o.polled_pending && o.ret.is_none()) {
+    let suffix = if o.converted_after_close { "-after-conversion" } else { "" };
+    fire(
+      format!("{}:{}:closed-handle-blocks{}", fl, o.form, suffix),
+      format!("future {} ({} on {}) created after the handle's close() returned Pending", o.fut.as_deref().unwrap_or("?"), o.form, o.handle),
+    );
+  }
+
   let complete = status == "ok";
   // C01 (rendezvous): an ok send means a receiver has the value
   if rdv && complete {
@@ -525,6 +535,14 @@ pub fn check(case: &Case, res: &RunResult, status: &str) -> Vec<(String, String)
     for o in &pend {
       let (polls, wakes) = res.stats.get(o.tid).copied().unwrap_or((0, 0));
       let extra = format!("thread {} polls={} wakes={}", o.tid, polls, wakes);
+      if o.closed_at_call {
+        let suffix = if o.converted_after_close { "-after-conversion" } else { "" };
+        fire(
+          format!("{}:{}:closed-handle-blocks{}", fl, o.form, suffix),
+          format!("{} on {} after its close() never returned; {}", o.form, o.handle, extra),
+        );
+        continue;
+      }
       if BLOCKING_RECV.contains(&o.form.as_str()) {
         if !spmc && !unreceived.is_empty() {
           fire(
